@@ -9,6 +9,15 @@ L3: the real value vs. the proved specification `hv` (exact rational; the driver
     permutation / duplication invariance, "adding a point never decreases", boundary points
     contribute nothing, caller's arrays unchanged, no exception.
 
+The glue in evaluator/callback.py (`Model/HvRecorder.lean`): ONE `ObjectiveRecorder` object is driven
+through whole job streams (1 .. several hundred jobs, failures mixed in, tuple / list / ndarray /
+NumPy-scalar objectives, a second recorder object alive at the same time); the value after EVERY job
+must be the exact hypervolume of the history so far w.r.t. its componentwise worst point (Lean
+`recRun`), must never decrease (theorem C12_recorder_monotone), the caller's objective arrays must
+stay untouched, and `LoggerCallback` / `SearchEarlyStopping` / `TqdmCallback` fed the same jobs must
+show that value; the stop decision of `SearchEarlyStopping` is compared with the model `stopRun` (L2).
+Growing-archive histories call `hypervolume` repeatedly on the SAME array / reference objects.
+
 All generated inputs satisfy the property's quantifier (every point <= ref component-wise; the
 docstring itself says that anything else "quietly fails").  Lattice and dyadic inputs make the
 float arithmetic of the implementation exact, so those comparisons are exact (Fractions);
@@ -70,6 +79,165 @@ def _hv_py(ref, pts):
 
 def _exact_py(ref, pts):
     return _hv_py([Fraction(r) for r in ref], [[Fraction(v) for v in p] for p in pts])
+
+
+def _front(S):
+    """non-dominated subset of a set of tuples (minimisation)"""
+    out = []
+    for p in sorted(S):
+        if not any(_wd(q, p) for q in out):
+            out.append(p)
+    return out
+
+
+def _hv_int(ref, pts):
+    """exact hypervolume on integer coordinates (cross-sections pruned to their fronts); used only to
+    shrink failing job streams, the verdict always comes from the Lean value"""
+    m = len(ref)
+    pts = {tuple(p) for p in pts}
+    if not pts:
+        return 0
+    if m == 0:
+        return 1
+    if m == 1:
+        return max(ref[0] - min(p[0] for p in pts), 0)
+    cuts = sorted({p[0] for p in pts if p[0] <= ref[0]})
+    tot = 0
+    for k, c in enumerate(cuts):
+        nxt = cuts[k + 1] if k + 1 < len(cuts) else ref[0]
+        if nxt != c:
+            tot += (nxt - c) * _hv_int(ref[1:], _front({p[1:] for p in pts if p[0] <= c}))
+    return tot
+
+
+_FAIL_LABELS = ["F", "F", "F_timeout", "F_nan", "F_oom"]
+_CONTAINERS = ["tuple", "tuple", "list", "ndarray", "npscalar", "intarray"]
+
+
+def _common_unit(values):
+    """e such that every value is k * 2^e with |k| <= 512 (float arithmetic on such streams is exact
+    for <= 5 objectives), else None"""
+    vals = [float(v) for v in values if v != 0]
+    if not vals:
+        return 0
+    if not all(math.isfinite(v) for v in vals):
+        return None
+    e = min(math.frexp(v)[1] for v in vals) - 53
+    ints = [Fraction(v) / Fraction(2) ** e for v in vals]
+    if any(i.denominator != 1 for i in ints):
+        return None
+    g = 0
+    for i in ints:
+        g = math.gcd(g, int(i))
+    while g % 2 == 0 and g > 0:
+        g //= 2
+        e += 1
+    return e if all(abs(Fraction(v) / Fraction(2) ** e) <= 512 for v in vals) else None
+
+
+def _stream_objectives(case):
+    """the job objectives of a stream case: compact form (`jobs` = integer vectors or failure labels,
+    value = integer * 2^unit_exp) or raw form (`objectives`)"""
+    if "jobs" in case:
+        u = 2.0 ** case.get("unit_exp", 0)
+        return [j if isinstance(j, str) else tuple(float(v) * u for v in j) for j in case["jobs"]]
+    return [o if isinstance(o, str) else tuple(float(v) for v in o) for o in case["objectives"]]
+
+
+def _expand(case):
+    """a stream case in generator form ({"gen": {"seed", "length", "m"}, "upto": k}: very long streams, whose job
+    list would not fit into a replay file) -> the explicit case; other cases unchanged"""
+    if "gen" not in case:
+        return case
+    import random
+
+    g = case["gen"]
+    full = _gen_stream(random.Random(int(g["seed"])), int(g["length"]), int(g["m"]), allow_float=False, shape=g.get("shape"))
+    if "upto" in case:
+        full["jobs"] = full["jobs"][:int(case["upto"])]
+    full["kind"] = full["kind"] + "-gen"
+    full["_src"] = {k: v for k, v in case.items() if k != "upto"}
+    return full
+
+
+def _hist_bucket(n):
+    for b in (1, 4, 16, 64, 256):
+        if n <= b:
+            return f"hist<={b}"
+    return "hist>256"
+
+
+def _gen_stream(rng, length, m, allow_float=True, shape=None):
+    """one job stream for one recorder object (compact exact form, or raw non-dyadic floats);
+    `length` = number of NUMERIC jobs, failures come on top"""
+    shape = shape or rng.choice(["iid", "iid", "improving", "front", "late-worst", "dups", "float" if allow_float else "iid"])
+    # long histories on a small lattice saturate it (some row then attains the worst value in every objective at once)
+    R = rng.choice([4, 16, 32]) if length <= 40 else rng.choice([16, 32, 32])
+    sign = rng.choice(["mixed", "mixed", "negative", "positive"])
+    off = {"mixed": 0, "negative": -(R + rng.randint(1, 8)), "positive": R + rng.randint(1, 8)}[sign]
+    pf = rng.choice([0.0, 0.1, 0.15, 0.3])
+    burst = rng.randint(1, 4) if rng.random() < 0.25 else 0
+    pool = [[rng.randint(-R, R) for _ in range(m)] for _ in range(max(2, length // 6))]
+    tgt = rng.randint(-R // 2, R // 2) * m
+    jobs, k = [], 0
+    while k < length:
+        if len(jobs) < burst or rng.random() < pf:
+            jobs.append(rng.choice(_FAIL_LABELS))
+            continue
+        k += 1
+        if shape == "improving":
+            # mostly: better than everything before in every objective; the worst point is then made of
+            # coordinates of several different (dominated) early rows
+            base = min(R, -R + (2 * R * (k - 1)) // max(length, 1))
+            v = [max(-R, min(R, base + rng.randint(-1, 0))) for _ in range(m)]
+            if rng.random() < 0.2:
+                v[rng.randrange(m)] = rng.randint(-R, R)
+        elif shape == "front":
+            v = [rng.randint(-R, R) for _ in range(m)]
+            for _t in range(4 * R * m):
+                d = sum(v) - tgt
+                if d == 0:
+                    break
+                i = rng.randrange(m)
+                if d > 0 and v[i] > -R:
+                    v[i] -= 1
+                elif d < 0 and v[i] < R:
+                    v[i] += 1
+            if rng.random() < 0.15:
+                v[rng.randrange(m)] = -R - rng.randint(0, 3)      # dominated, new worst coordinate
+        elif shape == "late-worst":
+            v = [rng.randint(0, R) for _ in range(m)]
+            if rng.random() < 0.06:
+                v[rng.randrange(m)] = -R - rng.randint(0, k)      # ever worse in one objective
+        elif shape == "dups":
+            v = list(rng.choice(pool))
+        else:
+            v = [rng.randint(-R, R) for _ in range(m)]
+        jobs.append([x + off for x in v])
+    case = {"kind": "stream-" + shape, "m": m, "container": rng.choice(_CONTAINERS),
+            "job": rng.choice(["hpo", "hpo", "ns"]), "via": rng.choice(["on_done", "on_done", "mixed"]),
+            "patience": rng.choice([1, 2, 3, 5, 8, 13]), "threshold": None,
+            # the callbacks own a recorder object each: all of them on short streams, on a part of the long ones
+            "callbacks": True if length <= 40 else rng.random() < 0.4}
+    if shape == "float":
+        sc = 10.0 ** rng.randint(-2, 2)
+        case["objectives"] = [j if isinstance(j, str) else [round(x * sc * rng.uniform(0.5, 1.0), 4) for x in j] for j in jobs]
+        case["container"] = rng.choice(["tuple", "list", "ndarray", "npscalar"])
+        case["exact"] = False
+    else:
+        case["unit_exp"] = rng.choice([0, 0, -3, -3, -3, -30, -40, -100, 100])
+        case["jobs"] = jobs
+        case["exact"] = True
+        if rng.random() < 0.3:
+            # in units of the hypervolume (unit^m): somewhere inside the range the values take
+            case["threshold"] = rng.randint(0, (2 * R) ** m)
+    if rng.random() < 0.2:
+        jobs.append(rng.choice(_FAIL_LABELS))      # the value after a trailing failure is still the hypervolume of the history
+    if rng.random() < 0.35:
+        # a second recorder object fed alternately (its own, different history)
+        case["decoy"] = [rng.choice(_FAIL_LABELS) if rng.random() < 0.1 else [rng.randint(-40, 40) for _ in range(m)]
+                         for _ in range(min(length, rng.randint(1, 90)))]
+    return case
 
 
 def _arr(pts, m, layout="C", dtype=float):
@@ -287,7 +455,8 @@ def _lean_all(ck, reqs, nproc):
     """answer `reqs` with `nproc` driver processes (order preserved)"""
     if not reqs:
         return []
-    nproc = max(1, min(nproc, len(reqs) // 200 + 1))
+    weight = sum(max(1, len(r.get("jobs", ())) // 4) for r in reqs)      # a stream request answers one value per job
+    nproc = max(1, min(nproc, weight // 200 + 1, len(reqs)))
     chunks = [reqs[i::nproc] for i in range(nproc)]
     outs = [None] * nproc
     errs = []
@@ -499,88 +668,420 @@ class _Runner:
         self.reqs.append(_req(v["pts"], v["ref"], ["fast"] + (["code"] if order is not None else []), order))
         self.metas.append(("scaled", sc_case, hs, None))
 
-    def recorder(self, objs_seq, kind):
-        """ObjectiveRecorder: hypervolume(-objectives, max(-objectives)) after every job"""
+    # -- job streams on ONE recorder object (the glue in evaluator/callback.py)
+    def _mk_job(self, k, o, container, jobkind):
+        """a job as the evaluator hands it to the callbacks; returns (job, pristine copy of an ndarray objective or None)"""
+        if isinstance(o, str):
+            obj, keep = o, None
+        elif container == "list":
+            obj, keep = [float(v) for v in o], None
+        elif container == "ndarray":
+            obj = np.array(o, dtype=float)
+            keep = obj.copy()
+        elif container == "intarray" and all(float(v).is_integer() and abs(v) < 2 ** 40 for v in o):
+            obj = np.array([int(v) for v in o], dtype=np.int64)
+            keep = obj.copy()
+        elif container == "npscalar":
+            obj, keep = tuple(np.float64(v) for v in o), None
+        else:
+            obj, keep = tuple(float(v) for v in o), None
+        job = None
+        if jobkind == "hpo":
+            try:
+                from deephyper.evaluator import HPOJob
+
+                job = HPOJob(k, {"x": k}, None, None)
+                job.set_output({"objective": obj})
+                if job.objective is not obj:
+                    job = None
+            except Exception:  # noqa
+                job = None
+        if job is None:
+            job = types.SimpleNamespace(id=k, objective=obj)
+        return job, keep
+
+    def _drive(self, case, callbacks=True, count=True):
+        """run the REAL recorder (one object) over the whole stream.  Returns a record:
+        vals[k] = value returned after job k (float; nan if not a number), stops[k] = search_stopped of the
+        deciding stopper, err = (k, exception) if a call raised, mutated = first k whose objective array changed"""
         from deephyper.evaluator.callback import ObjectiveRecorder
 
-        from deephyper.evaluator.callback import LoggerCallback, SearchEarlyStopping
-
         ck = self.ck
+        objs = _stream_objectives(case)
+        container, jobkind = case.get("container", "tuple"), case.get("job", "ns")
         rec = ObjectiveRecorder()
-        # the two public users of the recorder: what they print must be the same (exact) hypervolume
-        logger, stopper = LoggerCallback(), SearchEarlyStopping(patience=10 ** 9, verbose=1)
-        seen = []
-        for o in objs_seq:
-            job = types.SimpleNamespace(objective=o)
-            case = {"kind": kind, "objectives": seen + [o]}
+        decoy_rec = ObjectiveRecorder() if case.get("decoy") else None
+        decoy = case.get("decoy") or []
+        cbs = self._mk_callbacks(case) if callbacks else None
+        out = {"objs": objs, "vals": [], "stops": [], "err": None, "mutated": None}
+        kept = []
+        for k, o in enumerate(objs):
+            job, keep = self._mk_job(k, o, container, jobkind)
+            kept.append((job, keep))
             try:
                 val = rec(job)
-                self._callbacks(logger, stopper, job, val, case)
             except Exception as e:  # noqa
-                numeric = [x for x in seen + [o] if not isinstance(x, str)]
-                ck.case(case)
-                self.ck.fail(f"C12|raises|ObjectiveRecorder|{_branch(len(numeric[0]) if numeric else 1)}|{type(e).__name__}",
-                             "ObjectiveRecorder raised on numeric multi-objective jobs", case, repr(e))
-                return
-            seen = seen + [o]
-            numeric = [list(map(float, x)) for x in seen if not isinstance(x, str)]
-            ck.count("recorder-call")
-            if not numeric:
-                if val != -float("inf"):
-                    ck.fail("C12|exact|ObjectiveRecorder|no-objective", "recorder value before any numeric objective is not -inf", case, val)
-                continue
-            m = len(numeric[0])
-            pts = [[-v for v in x] for x in numeric]
-            ref = [max(p[i] for p in pts) for i in range(m)]
-            ck.case(case, nontrivial=len(pts) >= 2)
-            self.reqs.append(_req(pts, ref, ["fast"]))
-            self.metas.append(("recorder", {**case, "ref": ref, "pts": pts, "exact": True}, float(val), None))
+                out["err"] = (k, e)
+                return out
+            try:
+                v = float(val)
+            except Exception:  # noqa
+                v = float("nan")
+            out["vals"].append(v)
+            if cbs is not None:
+                self._callbacks(cbs, job, v, case, k)
+                out["stops"].append(bool(getattr(cbs["decider"], "search_stopped", False)))
+            if decoy_rec is not None and k < len(decoy):
+                d = decoy[k]
+                try:
+                    decoy_rec(self._mk_job(k, d if isinstance(d, str) else tuple(float(x) for x in d), "ndarray", "ns")[0])
+                except Exception:  # noqa
+                    pass
+            if out["mutated"] is None:
+                # the newest objective array after every job, all of them every 32 jobs and at the end
+                chk = kept if (k % 32 == 31 or k == len(objs) - 1) else kept[-1:]
+                for (j2, kp) in chk:
+                    if kp is not None and not (isinstance(j2.objective, np.ndarray) and np.array_equal(j2.objective, kp)):
+                        out["mutated"] = k
+                        break
+            if count:
+                ck.count("recorder-call")
+        return out
 
-    def _callbacks(self, logger, stopper, job, val, case):
-        """LoggerCallback / SearchEarlyStopping on the same job: the hypervolume they report (5 decimals)
-        is the recorder's value `val`, which is compared with the exact value separately"""
+    def _mk_callbacks(self, case):
+        try:
+            return self._mk_callbacks_(case)
+        except Exception as e:  # noqa
+            self.ck.fail(f"C12|raises|callbacks|{type(e).__name__}", "LoggerCallback / SearchEarlyStopping / TqdmCallback cannot be constructed",
+                         {"kind": case.get("kind"), "patience": case.get("patience"), "threshold": case.get("threshold")}, repr(e))
+            return None
+
+    def _mk_callbacks_(self, case):
+        from deephyper.evaluator.callback import LoggerCallback, SearchEarlyStopping, TqdmCallback
+
+        thr = case.get("threshold")
+        if thr is not None and "jobs" in case:
+            thr = float(thr) * 2.0 ** (case.get("unit_exp", 0) * case["m"])
+        cbs = {"logger": LoggerCallback(), "printer": SearchEarlyStopping(patience=10 ** 9, verbose=1),
+               "decider": SearchEarlyStopping(patience=int(case.get("patience", 10)), threshold=thr, verbose=0),
+               "tqdm": None, "tqdm_buf": None, "threshold": thr}
+        if case.get("job") == "hpo":
+            try:
+                import io
+
+                cbs["tqdm"], cbs["tqdm_buf"] = TqdmCallback(), io.StringIO()
+            except Exception:  # noqa
+                cbs["tqdm"] = None
+        return cbs
+
+    def stream(self, case):
+        """one recorder object through a whole job stream: real code now, Lean `recRun` later (judge)"""
+        ck = self.ck
+        case = _expand(case)
+        rec = self._drive(case, callbacks=bool(case.get("callbacks", True)))
+        objs = rec["objs"]
+        ck.count("stream:" + case.get("kind", "?").replace("stream-", ""))
+        ck.count("stream-container:" + case.get("container", "tuple"))
+        n_num = sum(1 for o in objs if not isinstance(o, str))
+        ck.count("stream-" + _hist_bucket(n_num))
+        import hashlib
+
+        h = hashlib.sha1(repr((case.get("m"), case.get("unit_exp"), case.get("container"))).encode())
+        for k, o in enumerate(objs[:len(rec["vals"]) + (1 if rec["err"] else 0)]):
+            h.update(repr(o).encode())
+            ck.case({"kind": case.get("kind", "stream"), "prefix": h.hexdigest()[:20], "n": k + 1}, nontrivial=k >= 1 and not isinstance(o, str))
+        numeric = [o for o in objs if not isinstance(o, str)]
+        mbr = _branch(len(numeric[0]) if numeric else 1)
+        if rec["err"] is not None:
+            k, e = rec["err"]
+            sc = self._prefix(case, k + 1)
+            ck.fail(f"C12|raises|ObjectiveRecorder|{mbr}|{type(e).__name__}",
+                    "ObjectiveRecorder raised on numeric multi-objective jobs", sc, repr(e))
+            return
+        if rec["mutated"] is not None:
+            sc = self._prefix(case, rec["mutated"] + 1)
+            ck.fail(f"C12|mutates-input|ObjectiveRecorder|{mbr}|{case.get('container')}",
+                    "an objective array handed to the recorder was modified", sc, {"first_seen_after_job": rec["mutated"] + 1})
+        thr = None
+        if case.get("exact", True) and rec["stops"]:
+            cbthr = case.get("threshold")
+            if cbthr is not None and "jobs" in case:
+                thr = rat(float(cbthr) * 2.0 ** (case.get("unit_exp", 0) * case["m"]))
+        self.reqs.append({"op": "recorder", "jobs": [None if isinstance(o, str) else [rat(v) for v in o] for o in objs],
+                          "patience": int(case.get("patience", 10)), "threshold": thr})
+        self.metas.append(("stream", case, rec, None))
+
+    @staticmethod
+    def _prefix(case, k):
+        if "_src" in case:
+            return {**case["_src"], "upto": k}
+        c = {kk: v for kk, v in case.items() if kk != "decoy"}
+        if "jobs" in c:
+            c["jobs"] = c["jobs"][:k]
+        else:
+            c["objectives"] = c["objectives"][:k]
+        if "decoy" in case:
+            c["decoy"] = case["decoy"][:k]
+        return c
+
+    def _stream_bad(self, case, clause):
+        """does the (plain, callback-free) run of `case` still show the failure `clause`?  exact: the value
+        after the LAST job differs from the exact hypervolume of the whole history (Python oracle)"""
+        rec = self._drive(case, callbacks=False, count=False)
+        if rec["err"] is not None or not rec["vals"]:
+            return False
+        vals = rec["vals"]
+        exact = case.get("exact", True)
+        numeric = [o for o in rec["objs"] if not isinstance(o, str)]
+        if clause == "monotone":
+            prev, first = None, True
+            for o, v in zip(rec["objs"], vals):
+                first = first and isinstance(o, str)
+                if first:
+                    continue
+                if prev is not None and not v >= prev - (0.0 if exact else TOL * max(abs(prev), abs(v))):
+                    return True
+                prev = v
+            return False
+        if not numeric:
+            return False
+        v = vals[-1]
+        if not math.isfinite(v):
+            return True
+        m = len(numeric[0])
+        if "jobs" in case:
+            ipts = [[-x for x in j] for j in case["jobs"] if not isinstance(j, str)]
+            iref = [max(p[i] for p in ipts) for i in range(m)]
+            return Fraction(v) != _hv_int(iref, ipts) * Fraction(2) ** (case.get("unit_exp", 0) * m)
+        if len(numeric) > 40:
+            return False
+        pts = [[-x for x in o] for o in numeric]
+        ref = [max(p[i] for p in pts) for i in range(m)]
+        e = _exact_py(ref, pts)
+        return (Fraction(v) != e) if exact else not _close(v, e, ref, pts)
+
+    def shrink_stream(self, case, clause):
+        """delta-debugging on the job list (bounded number of re-runs), then simpler containers"""
+        key = "jobs" if "jobs" in case else "objectives"
+        base = {k: v for k, v in case.items() if k != "decoy"}
+        if not self._stream_bad(base, clause):
+            base = dict(case)
+            if not self._stream_bad(base, clause):
+                return case
+        jobs = list(base[key])
+        attempts, chunk = 0, max(1, len(jobs) // 2)
+        while attempts < 250:
+            i, removed = 0, False
+            while i < len(jobs) and attempts < 250:
+                cand = jobs[:i] + jobs[i + chunk:]
+                attempts += 1
+                if cand and self._stream_bad({**base, key: cand}, clause):
+                    jobs, removed = cand, True
+                else:
+                    i += chunk
+            if chunk > 1:
+                chunk = max(1, chunk // 2)
+            elif not removed:
+                break
+        out = {**base, key: jobs, "shrunk_from": len(case[key])}
+        for simpler in ({"container": "tuple", "job": "ns"}, {"job": "ns"}, {"container": "tuple"}):
+            cand = {**out, **simpler}
+            if cand != out and self._stream_bad(cand, clause):
+                out = cand
+                break
+        return out
+
+    def _stream_class(self, case):
+        """where the failure sits: is a DIRECT hypervolume(-objectives, worst point) call on the final history
+        exact?  yes -> the glue (recorder) is wrong; no -> the input class of the _hv.py failure"""
+        numeric = [o for o in _stream_objectives(case) if not isinstance(o, str)]
+        if not numeric:
+            return "no-objective"
+        m = len(numeric[0])
+        pts = [[-x for x in o] for o in numeric]
+        ref = [max(p[i] for p in pts) for i in range(m)]
+        h, _ = _call(self.hypervolume, pts, ref)
+        if isinstance(h, Exception):
+            return "direct-call-raises"
+        if self._cls is None:
+            self._cls = self.ck.driver()
+        spec = unrat(self._cls.ask(_req(pts, ref, ["fast"]))["fast"])
+        ok = (Fraction(h) == spec) if case.get("exact", True) else _close(h, spec, ref, pts)
+        if ok:
+            return "recorder-glue"
+        return self.classify({"pts": pts, "ref": ref, "exact": case.get("exact", True)})
+
+    def _report_stream(self, clause, case, k, detail):
+        """shrink (first few per clause), classify, report"""
+        self.nstream = getattr(self, "nstream", {})
+        key = (clause, _branch(case.get("m", 2)), _hist_bucket(k + 1))
+        self.nstream[key] = self.nstream.get(key, 0) + 1
+        sc = self._prefix(case, k + 1)
+        if self.nstream[key] > 1 or len(self.nstream) > 6:
+            # one shrunk replay per (clause, objectives, history length) class is enough
+            self.ck.count(f"stream-{clause}-failures-not-shrunk")
+            return
+        if "gen" not in sc:
+            sc = self.shrink_stream(sc, clause)
+        numeric = [o for o in _stream_objectives(_expand(sc)) if not isinstance(o, str)]
+        mbr = _branch(len(numeric[0]) if numeric else 1)
+        extra = f"|{self._stream_class(_expand(sc))}|{_hist_bucket(len(numeric))}"
+        what = {"exact": "value reported after a job differs from the exact hypervolume of the history so far (reference = componentwise worst point)",
+                "monotone": "value reported by one recorder object decreases when a job is added"}[clause]
+        self.ck.fail(f"C12|{clause}|ObjectiveRecorder|{mbr}{extra}", f"ObjectiveRecorder: {what} ({mbr})", sc, detail)
+
+    def _judge_stream(self, case, rec, rep):
+        ck = self.ck
+        objs, vals = rec["objs"], rec["vals"]
+        exact = case.get("exact", True)
+        lean = rep["values"]
+        if len(lean) != len(objs):
+            raise HarnessError("recorder reply has a wrong length")
+        numeric, prev, all_ok = [], None, True
+        for k, (o, v) in enumerate(zip(objs, vals)):
+            if not isinstance(o, str):
+                numeric.append(o)
+            if lean[k] is None:
+                if v != -float("inf"):
+                    all_ok = False
+                    ck.fail("C12|exact|ObjectiveRecorder|no-objective", "recorder value before any numeric objective is not -inf",
+                            self._prefix(case, k + 1), v)
+                    break
+                continue
+            spec = unrat(lean[k])
+            m = len(numeric[0])
+            pts = [[-x for x in q] for q in numeric]
+            ref = [max(p[i] for p in pts) for i in range(m)]
+            ok = math.isfinite(v) and ((Fraction(v) == spec) if exact else _close(v, spec, ref, pts))
+            ck.count("stream-step-compared")
+            if not ok:
+                all_ok = False
+                self._report_stream("exact", case, k, {"job": k + 1, "impl": v, "exact": f"{spec.numerator}/{spec.denominator}", "exact_float": float(spec)})
+            if prev is not None and not v >= prev - (0.0 if exact else TOL * max(_scale(ref, pts), abs(prev))):
+                # theorem C12_recorder_monotone: the exact values never decrease along a stream
+                all_ok = False
+                self._report_stream("monotone", case, k, {"job": k + 1, "before": prev, "after": v})
+            if not all_ok:
+                break
+            prev = v
+        # L2: the stop decision of SearchEarlyStopping against the model (exact streams with exact values only)
+        if all_ok and exact and rec["stops"] and len(rec["stops"]) == len(objs):
+            ck.count("stream-stopper-compared")
+            for k, (a, b) in enumerate(zip(rec["stops"], rep["stopped"])):
+                if bool(a) != bool(b):
+                    ck.mismatch(self._prefix(case, k + 1), {"what": "SearchEarlyStopping.search_stopped differs from the model stopRun",
+                                                            "job": k + 1, "impl": bool(a), "model": bool(b), "patience": case.get("patience"),
+                                                            "threshold": case.get("threshold")})
+                    break
+
+    # -- growing archive: repeated calls on the SAME array / reference objects
+    def archive(self, case):
+        """`hypervolume(A[:k], ref)` for k = 1..n on one preallocated array and one reference array, then rows
+        overwritten in place: each value must equal the value of a fresh call on fresh copies (which goes
+        through the ordinary exactness check), and neither object may change"""
+        ck = self.ck
+        rows, ref, m = case["rows"], case["ref"], len(case["ref"])
+        n = len(rows)
+        A = np.zeros((n, m), dtype=float)
+        r = np.array(ref, dtype=float)
+        r0 = r.copy()
+        steps = [("append", k, rows[k]) for k in range(n)] + [("overwrite", i, row) for i, row in case.get("overwrites", [])]
+        cur = []
+        for t, (op, i, row) in enumerate(steps):
+            if op == "append":
+                cur.append(list(row))
+            else:
+                cur[i] = list(row)
+            A[i] = row
+            view = A[:len(cur)]
+            sc = {**case, "upto": t + 1}
+            try:
+                h = float(self.hypervolume(view, r))
+            except Exception as e:  # noqa
+                self.fail("raises", "hypervolume-history", sc, repr(e), "|" + type(e).__name__)
+                return
+            ck.count("archive-call")
+            if not (np.array_equal(r, r0) and np.array_equal(view, np.array(cur, dtype=float).reshape(len(cur), m))):
+                self.fail("mutates-input", "hypervolume-history", sc, {"step": t + 1})
+                return
+            hf, _ = _call(self.hypervolume, cur, ref)
+            if isinstance(hf, Exception) or hf != h:
+                self.fail("history-independent", "hypervolume-history", sc, {"step": t + 1, "same_objects": h, "fresh_copies": repr(hf)})
+                return
+        self.submit({"kind": "archive-final", "ref": ref, "pts": cur, "exact": True}, with_variants=False, want_small=False)
+
+    def _callbacks(self, cbs, job, val, case, k):
+        """LoggerCallback / SearchEarlyStopping / TqdmCallback on the same job: the hypervolume they show is
+        the recorder's value `val` (which is compared with the exact value separately)"""
         import contextlib
         import io
         import re
 
         ck = self.ck
         numeric = not isinstance(job.objective, str)
-        for name, cb in (("LoggerCallback", logger), ("SearchEarlyStopping", stopper)):
-            buf = io.StringIO()
+        other = case.get("via") == "mixed" and k % 3 == 1
+        for name in ("logger", "printer", "decider", "tqdm"):
+            cb = cbs[name]
+            if cb is None:
+                continue
+            cname = type(cb).__name__
+            buf, ebuf = io.StringIO(), (cbs["tqdm_buf"] if name == "tqdm" else io.StringIO())
+            pos = ebuf.tell()
             try:
-                with contextlib.redirect_stdout(buf):
-                    cb.on_done(job)
+                with contextlib.redirect_stdout(buf), contextlib.redirect_stderr(ebuf):
+                    (cb.on_done_other if other else cb.on_done)(job)
             except Exception as e:  # noqa
                 if numeric:
-                    ck.fail(f"C12|raises|{name}|{type(e).__name__}", f"{name}.on_done raised on a numeric multi-objective job", case, repr(e))
+                    ck.fail(f"C12|raises|{cname}|{type(e).__name__}", f"{cname}.on_done raised on a numeric multi-objective job",
+                            self._prefix(case, k + 1), repr(e))
                 else:
-                    ck.count(f"{name}:raises-on-failure-string")
+                    ck.count(f"{cname}:raises-on-failure-string")
+                if name == "tqdm":
+                    cbs["tqdm"] = None
                 continue
             out = buf.getvalue()
-            ck.count(f"{name}:on_done")
-            if name == "LoggerCallback" and numeric:
-                mm = re.search(r"HVI Objective: (-?[0-9.]+|-?inf|nan)", out)
+            ck.count(f"{cname}:on_done")
+            if name == "logger" and numeric:
+                mm = re.search(r"HVI Objective: (-?[0-9.]+(?:e[-+]?[0-9]+)?|-?inf|nan)", out)
                 if mm is None:
                     ck.count("LoggerCallback:format-not-recognised")
                 elif mm.group(1) != f"{val:.5f}":
-                    ck.fail("C12|exact|LoggerCallback|printed-hvi", "LoggerCallback prints a hypervolume different from the recorder's", case,
-                            {"printed": mm.group(1), "recorder": val})
+                    ck.fail("C12|exact|LoggerCallback|printed-hvi", "LoggerCallback prints a hypervolume different from the recorder's",
+                            self._prefix(case, k + 1), {"printed": mm.group(1), "recorder": val})
                 else:
                     ck.count("LoggerCallback:hvi-compared")
-            if name == "SearchEarlyStopping":
+            if name == "printer":
                 mm = re.search(r"improved from (\S+) -> (\S+)", out)
                 if mm is not None:
                     if mm.group(2) != f"{val:.5f}":
                         ck.fail("C12|exact|SearchEarlyStopping|printed-improvement", "SearchEarlyStopping reports a hypervolume different from the recorder's",
-                                case, {"printed": mm.group(2), "recorder": val})
+                                self._prefix(case, k + 1), {"printed": mm.group(2), "recorder": val})
                     else:
                         ck.count("SearchEarlyStopping:improvement-compared")
+            if name == "tqdm" and numeric:
+                try:
+                    from tqdm import tqdm as _tq
+
+                    shown = re.findall(r"hvi=([^\s,\]]+)", ebuf.getvalue()[pos:])
+                    want = str(_tq.format_num(val))
+                except Exception:  # noqa
+                    shown, want = [], None
+                if not shown or want is None:
+                    ck.count("TqdmCallback:format-not-recognised")
+                elif shown[-1] != want:
+                    ck.fail("C12|exact|TqdmCallback|shown-hvi", "TqdmCallback shows a hypervolume different from the recorder's",
+                            self._prefix(case, k + 1), {"shown": shown[-1], "recorder": val, "recorder_as_tqdm_formats_it": want})
+                else:
+                    ck.count("TqdmCallback:hvi-compared")
 
     # -- judge the Lean replies
     def judge(self, nproc):
         ck = self.ck
         reps = _lean_all(ck, self.reqs, nproc)
         for (tag, case, h, _), rep in zip(self.metas, reps):
+            if tag == "stream":
+                self._judge_stream(case, h, rep)
+                continue
             ref, pts = case["ref"], case["pts"]
             spec = unrat(rep["fast"])
             for k in ("hv", "last"):
@@ -590,7 +1091,7 @@ class _Runner:
             if "cells" in rep and Fraction(rep["cells"]) != spec:
                 ck.mismatch(case, {"what": "cell count differs from hv on a lattice input", "cells": rep["cells"], "hv": rep["fast"]})
             exact = case.get("exact", True)
-            site = "ObjectiveRecorder" if tag == "recorder" else "hypervolume"
+            site = "hypervolume"
             ok_spec = (Fraction(h) == spec) if exact else _close(h, spec, ref, pts)
             if not ok_spec:
                 self.nexact = getattr(self, "nexact", {})
@@ -598,9 +1099,6 @@ class _Runner:
                 if self.nexact[site] > 40:
                     # plenty of replays already; do not spend the budget shrinking/classifying more
                     ck.count("exact-failures-beyond-40-not-classified")
-                elif tag == "recorder":
-                    self.fail("exact", site, case, {"impl": h, "exact": f"{spec.numerator}/{spec.denominator}"},
-                              "|" + self.classify(case))
                 else:
                     sc = self.shrink_exact(case)
                     self.fail("exact", site, sc, {"impl_on_original": h, "exact_on_original": f"{spec.numerator}/{spec.denominator}",
@@ -620,12 +1118,20 @@ def run(ck):
                "(lattice/dyadic/duplicates/collinear/boundary/constant-sum fronts/zero reference/tiny reference with zero, tiny positive "
                "and tiny negative components/non-dyadic floats) each with permuted, duplicated, add-a-point, add-a-boundary-point and "
                "power-of-two scaled (2^-40, 2^-100, 2^100) variants and C/Fortran/strided-view layouts "
-               "+ ObjectiveRecorder / LoggerCallback / SearchEarlyStopping job streams (ordinary, tiny and huge magnitudes); distinct by canonical (ref, point list); non-trivial = >=2 objectives and "
+               "+ job streams on ONE ObjectiveRecorder object (1..40, 66..300 and 500..1100 numeric jobs in quick, up to 3100 in thorough; shapes iid / "
+               "improving chain / constant-sum front with dominated new-worst rows / late new worst coordinates / duplicates / non-dyadic floats; "
+               "all-negative, all-positive and mixed signs; units 1, 2^-3, 2^-30..2^-100, 2^100; failure labels mixed in, leading failure bursts, trailing "
+               "failure; tuple / list / float ndarray / int ndarray / NumPy-scalar objectives on real HPOJob or plain job objects; a second recorder "
+               "object fed alternately; LoggerCallback, two SearchEarlyStopping and TqdmCallback fed the same jobs through on_done / on_done_other), "
+               "value compared after EVERY job + growing-archive histories of hypervolume calls on one array / reference object with in-place row "
+               "overwrites; distinct by canonical (ref, point list) resp. stream prefix; non-trivial = >=2 objectives and "
                ">=2 mutually non-dominated points")
     ck.assumptions = [
         "every point is <= the reference in every coordinate (the property's quantifier; other inputs are documented as unsupported)",
         "pointset is a 2-D float ndarray (list input and int-array-with-float-reference raise; outside the property, see notes/C12.md)",
         "np.argsort inside the NDS pre-filter returns a permutation (observed, passed to the model)",
+        "ObjectiveRecorder: every numeric objective of one recorder is a vector of the same length m >= 1 (its multi-objective branch; "
+        "scalar objectives take the running-maximum branch, which does not call hypervolume)",
         "IEEE arithmetic is exact on the lattice/dyadic inputs (products < 2^53); non-dyadic floats compared with relative tolerance 1e-9",
     ]
     ck.trusted_extra = ["one case is covered by correspondence only: >= 5 objectives together with a point that has a coordinate equal to "
@@ -635,6 +1141,18 @@ def run(ck):
     pf = R.pf
     real_np = pf.np
     nproc = ck.pick(4, 12)
+    import os
+    import sys
+    import time
+
+    t_sec = [time.time()]
+
+    def mark(name):
+        # development aid: C12_PROFILE=1 prints the wall time of each section (never used for a verdict)
+        if os.environ.get("C12_PROFILE"):
+            print(f"[C12 profile] {name}: {time.time() - t_sec[0]:.1f}s", file=sys.stderr)
+        t_sec[0] = time.time()
+
     try:
         pf.np = R.spy
         # corpus first
@@ -644,6 +1162,9 @@ def run(ck):
         for f in sorted((VERIF / "corpus" / "C12").glob("*.json")):
             c = json.loads(f.read_text())
             c = c.get("case", c)
+            if "jobs" in c and "pts" not in c:
+                R.stream(c)
+                ck.count("corpus")
             if "pts" in c and "ref" in c:
                 c.setdefault("kind", "corpus")
                 c.setdefault("exact", True)
@@ -655,6 +1176,7 @@ def run(ck):
             if len(R.reqs) >= 60000:
                 R.judge(nproc)
         R.judge(nproc)
+        mark("a exhaustive")
         # (b) generated sets with all variants
         nrand = ck.pick(700, 6000)
         for t in range(nrand):
@@ -663,6 +1185,7 @@ def run(ck):
             small = len(case["pts"]) <= 6 and case["exact"]
             R.submit(case, with_variants=True, want_small=small)
         R.judge(nproc)
+        mark("b generated")
         # (b2) many-objective clustered sets (ties and equal projections), no variants
         for t in range(ck.pick(6000, 60000)):
             case = _gen_random_one(ck.rng, 10, 7, kind="cluster")
@@ -670,24 +1193,45 @@ def run(ck):
             if len(R.reqs) >= 30000:
                 R.judge(nproc)
         R.judge(nproc)
-        # (c) ObjectiveRecorder
-        nrec = ck.pick(60, 600)
-        for t in range(nrec):
-            m = ck.rng.randint(2, 4)
-            length = ck.rng.randint(1, 12)
-            ints = ck.rng.random() < 0.3
-            # objective magnitudes: ordinary, or all of order 1e-9 and smaller / very large (exact powers of two)
-            unit = 1.0 if (ints or ck.rng.random() < 0.5) else 2.0 ** ck.rng.choice([-30, -33, -40, -100, 100])
-            seq = []
-            for _ in range(length):
-                if ck.rng.random() < 0.15:
-                    seq.append("F")
-                elif ints:
-                    seq.append(tuple(ck.rng.randint(-4, 4) for _ in range(m)))
-                else:
-                    seq.append(tuple(ck.rng.randint(-32, 32) / 8 * unit for _ in range(m)))
-            R.recorder(seq, "recorder-int" if ints else ("recorder" if unit == 1.0 else "recorder-scaled"))
+        mark("b2 clustered")
+        # (c) the glue: ONE ObjectiveRecorder object (+ the callbacks that own one) through whole job streams
+        #     short, medium and long histories; lengths around the sizes at which an implementation might
+        #     start to bound / compact / cache its history (powers of two, round numbers)
+        for t in range(ck.pick(90, 600)):
+            m = ck.rng.choice([1, 2, 2, 2, 3, 3, 4, 5])
+            length = ck.rng.choice([1, 2, 3, 5, 8, 12, 20, 40])
+            R.stream(_gen_stream(ck.rng, ck.rng.randint(1, length), m))
+        for t in range(ck.pick(36, 120)):
+            m = ck.rng.choice([1, 2, 2, 2, 3, 3, 3, 4])
+            base = ck.rng.choice([64, 64, 100, 128, 128] + ([200, 256] if m <= 2 or ck.thorough else []) + ([512] if ck.thorough and m <= 3 else []))
+            length = base + ck.rng.randint(2, 40)
+            if m >= 4:
+                length = min(length, 110)
+            R.stream(_gen_stream(ck.rng, length, m, allow_float=(m <= 3 and length <= 140)))
+            if len(R.reqs) >= 40:
+                R.judge(nproc)
         R.judge(nproc)
+        mark("c streams")
+        # very long histories (generator form: the replay regenerates the stream from its seed)
+        vlong = ck.pick([(2, 1024, "late-worst"), (2, 1024, "iid"), (2, 512, "improving"), (3, 512, "late-worst")],
+                        [(2, 1024, "late-worst"), (2, 1024, "iid"), (2, 1024, "front"), (2, 1024, "improving"), (2, 2048, "late-worst"),
+                         (2, 2048, "iid"), (2, 3072, "late-worst"), (3, 512, "iid"), (3, 1024, "late-worst"), (3, 256, "front"),
+                         (4, 256, "late-worst"), (1, 1024, "iid")])
+        for (m, base, shape) in vlong:
+            R.stream({"kind": "stream-gen", "gen": {"seed": ck.rng.randrange(2 ** 31), "length": base + ck.rng.randint(2, 60), "m": m, "shape": shape}})
+        R.judge(nproc)
+        mark("c very long streams")
+        # (d) growing archive on the same array / reference objects
+        for t in range(ck.pick(25, 200)):
+            m = ck.rng.randint(1, 5)
+            n = ck.rng.randint(2, 40 if m <= 3 else 14)
+            Rr = ck.rng.choice([2, 4, 8])
+            ref = [float(Rr)] * m if ck.rng.random() < 0.7 else [float(ck.rng.randint(0, Rr)) for _ in range(m)]
+            rows = [[ref[i] - ck.rng.randint(0, 2 * Rr) for i in range(m)] for _ in range(n)]
+            ov = [(ck.rng.randrange(n), [ref[i] - ck.rng.randint(0, 2 * Rr) for i in range(m)]) for _ in range(ck.rng.randint(0, 6))]
+            R.archive({"kind": "archive", "ref": ref, "rows": rows, "overwrites": ov})
+        R.judge(nproc)
+        mark("d archive")
     finally:
         pf.np = real_np
         R.close()
@@ -700,8 +1244,20 @@ def replay(ck, case):
     real_np = pf.np
     try:
         pf.np = R.spy
-        if "objectives" in case and "pts" not in case:
-            R.recorder([tuple(o) if not isinstance(o, str) else o for o in case["objectives"]], case.get("kind", "recorder"))
+        if ("objectives" in case or "jobs" in case or "gen" in case) and "pts" not in case:
+            c = dict(case)
+            if "objectives" in c and "exact" not in c:
+                # raw objectives (also the pre-stream replay format): exact iff on a common power-of-two grid
+                c["exact"] = _common_unit([v for o in c["objectives"] if not isinstance(o, str) for v in o]) is not None
+            if "m" not in c and "gen" not in c:
+                num = [o for o in c.get("jobs", c.get("objectives")) if not isinstance(o, str)]
+                c["m"] = len(num[0]) if num else 1
+            R.stream(c)
+            rec = R.metas[-1][2] if R.metas and R.metas[-1][0] == "stream" else None
+            if rec is not None:
+                print("replay stream: jobs =", len(rec["objs"]), "last values =", rec["vals"][-3:])
+        elif case.get("kind") == "archive" and "rows" in case:
+            R.archive(case)
         else:
             c = dict(case)
             c.setdefault("kind", "replay")
@@ -741,7 +1297,8 @@ def replay(ck, case):
         metas = list(R.metas)
         R.judge(1)
         for tag, cs, h, _ in metas[:3]:
-            print("replay:", tag, "impl =", h, "exact(py) =", _exact_py(cs["ref"], cs["pts"]))
+            if tag != "stream":
+                print("replay:", tag, "impl =", h, "exact(py) =", _exact_py(cs["ref"], cs["pts"]))
     finally:
         pf.np = real_np
         R.close()
